@@ -6,6 +6,8 @@ mod c07;
 mod langs;
 mod c08;
 mod c13;
+mod c14;
+mod c15;
 mod strsweep;
 mod common;
 mod enumr;
@@ -43,6 +45,8 @@ fn main() {
                 "C07" => c07::run(tier),
                 "C08" => c08::run(tier),
                 "C13" => c13::run(tier),
+                "C14" => c14::run(tier),
+                "C15" => c15::run(tier),
                 _ => {
                     eprintln!("unknown property {id}");
                     2
@@ -61,6 +65,7 @@ fn main() {
                 "c03-extra" => c03::replay_extra(case),
                 "c07" => c07::replay(case),
                 "c13-f64" => c13::replay_f64(case),
+                "c15" => c15::replay(case),
                 e => {
                     eprintln!("unknown replay engine {e}");
                     2
